@@ -55,11 +55,20 @@ def build_outdir(req, d):
     from vh import gen
     from vh.implworker import _pipeline_body
     gpath, tpath = os.path.join(d, "genes.tsv"), os.path.join(d, "tes.tsv")
-    gen.write_pair(req["case"], gpath, tpath)
     out = os.path.join(d, "out")
     ovl = os.path.join(out, "tmp", "overlap")
     os.makedirs(ovl)
     first, delta, last = req["case"]["windows"]
+    if req.get("case_before"):
+        # history: the pipeline ran on an earlier version of the annotation (e.g. other strands), the gene file was then corrected
+        # in place and the same command repeated in the same output directory
+        import time
+        gen.write_pair(req["case_before"], gpath, tpath)
+        _pipeline_body(req, d, gpath, tpath, out, ovl, range(first, last + 1, delta), req.get("genome", "G"))
+        time.sleep(0.05)
+        gen.write_pair(req["case"], gpath, os.devnull)
+    else:
+        gen.write_pair(req["case"], gpath, tpath)
     _pipeline_body(req, d, gpath, tpath, out, ovl, range(first, last + 1, delta), req.get("genome", "G"))
     return gpath, out
 
@@ -465,4 +474,44 @@ def op_synthetic(req):
         shutil.rmtree(d, ignore_errors=True)
 
 
-OPS = {"reader.session": op_session, "reader.synthetic": op_synthetic}
+def op_lookup_unit(req):
+    """The real get_specific_slice / _index_of_gene on a DensityData object whose label lists are given and whose six arrays are
+    filled with codes that name their own position (array id, group index, window index, gene index): which cell does a lookup
+    by labels select, or does it raise?"""
+    import numpy as np
+    from transposon.density_data import DensityData
+    from transposon.density_utils import get_specific_slice
+    out = []
+    for c in req["cases"]:
+        dd = DensityData.__new__(DensityData)
+        dd.order_list, dd.super_list, dd.window_list, dd.gene_list = list(c["orders"]), list(c["supers"]), list(c["windows"]), list(c["genes"])
+        ng, nw = len(dd.gene_list), len(dd.window_list)
+        def arr(aid, ngroups, nwin):
+            a = np.zeros((ngroups, nwin, ng), dtype=np.int64)
+            for t in range(ngroups):
+                for j in range(nwin):
+                    for g in range(ng):
+                        a[t, j, g] = ((aid * 100 + t) * 100 + j) * 100 + g
+            return a
+        no, ns = len(dd.order_list), len(dd.super_list)
+        dd.left_orders, dd.intra_orders, dd.right_orders = arr(1, no, nw), arr(2, no, 1), arr(3, no, nw)
+        dd.left_supers, dd.intra_supers, dd.right_supers = arr(4, ns, nw), arr(5, ns, 1), arr(6, ns, nw)
+        res = []
+        for cat, name, direction, w in c["queries"]:
+            try:
+                sl = get_specific_slice(dd, cat, name, direction, w)
+                vals = [int(x) for x in np.asarray(sl.slice).reshape(-1)]
+                res.append({"ok": True, "cells": vals})
+            except (ValueError, KeyError, IndexError, TypeError) as e:
+                res.append({"ok": False, "exc": type(e).__name__})
+        gi = []
+        for g in c["gene_queries"]:
+            try:
+                gi.append(int(dd._index_of_gene(g)))
+            except IndexError:
+                gi.append(None)
+        out.append({"queries": res, "gene_indices": gi})
+    return {"ok": True, "results": out}
+
+
+OPS = {"reader.lookup_unit": op_lookup_unit, "reader.session": op_session, "reader.synthetic": op_synthetic}
